@@ -100,6 +100,46 @@ func setPropsFromMap(cfg *Config, updates map[string]any) (stagedProps []stagedP
 	return setPropsFromMapRecursive(reflect.ValueOf(cfg), updates)
 }
 
+// Lays the update over the document that the config file holds now, decodes the result into a fresh
+// configuration and verifies that. This is what the next start would load. Checking it before the live
+// configuration is touched means that a value which is going to be rejected is never committed, not even
+// for a moment (change handlers of an earlier update re-read the settings and would pick it up), and it
+// checks the values that are written to the file rather than the command-line overrides that hide them.
+func dryRun(cfg *Config, updates map[string]any) error {
+	current, err := json.Marshal(cfg)
+	if err != nil {
+		return err
+	}
+	var document map[string]any
+	if err := json.Unmarshal(current, &document); err != nil {
+		return err
+	}
+	overlay(document, updates)
+
+	merged, err := json.Marshal(document)
+	if err != nil {
+		return err
+	}
+	candidate := NewDefault()
+	if err := json.Unmarshal(merged, candidate); err != nil {
+		return err
+	}
+	return candidate.verify()
+}
+
+// Copies the values of src over dst, descending into nested objects.
+func overlay(dst, src map[string]any) {
+	for key, value := range src {
+		if nested, ok := value.(map[string]any); ok {
+			if existing, ok := dst[key].(map[string]any); ok {
+				overlay(existing, nested)
+				continue
+			}
+		}
+		dst[key] = value
+	}
+}
+
 // Updates are applied one at a time: two updates in flight would share the properties' staged and
 // previous values (the rollback of one could install the rejected value of the other) and could
 // rename an older snapshot of the file over a newer one.
@@ -114,6 +154,12 @@ func UpdatePartialFromConfig(cfg *Config, updates map[string]any) (UpdateStatus,
 	if updates == nil {
 		slog.Error("UpdatePartialFromConfig called with nil updates")
 		return UpdateStatusFailed, nil
+	}
+
+	// Try the update on a copy first: the live configuration is only touched by an update that is known to be valid.
+	if err := dryRun(cfg, updates); err != nil {
+		slog.Error("Updated config failed verification", "error", err)
+		return UpdateStatusFailed, fmt.Errorf("%w: %v", ErrUpdateFailed, err)
 	}
 
 	// A rejected or failed update must leave no trace: nothing staged, nothing committed,
